@@ -312,6 +312,12 @@ def monitor(role, steps):
             else:
                 if idle and "dwr" not in s.emitted:
                     return ("an idle open connection did not emit a watchdog request", i, s.obs)
+                if "dwr" in s.emitted and not idle:
+                    return ("a watchdog request was emitted although the connection had not been idle for the timeout", i, s.obs)
+                if "dwr" in s.emitted and i + 1 < len(steps) and steps[i + 1].pre_flags[5] and post[0] == "open":
+                    # one watchdog request per idle period: emitting it starts a new period (otherwise one per tick)
+                    return ("the watchdog request did not restart the idle period: the connection still counts as idle for the "
+                            "full timeout right after it (a DWR on every tick)", i, {"obs": s.obs, "next_event": list(steps[i + 1].ev)})
                 c = s.consumed
                 if c and c[0] == "dpr.ok":
                     if st != "closed" or ("dpa:%d:%d" % (c[1], c[2])) not in s.emitted:
